@@ -14,7 +14,17 @@ class LoaderHooks(wirehooks.WireHooks):
     def call(self, ip, frame, st, e, callee, dj, targs, resolved, rargs, args):
         if dj.get("krate") == "epserde" and dj.get("name") in ("deserialize_eps", "deserialize_full", "serialize", "serialize_on_field_write") and dj.get("parent_kind") in ("Trait", None) and frame.depth == 0:
             lv = tuple(ip.load_ref(st, a) for a in args)
-            st.events.append(("Call", "epserde", dj["name"], callee, frame.crate.span(e["sp"]), dj.get("n"), lv))
+            # what the local places mentioned by the arguments hold right now (provenance of raw views)
+            roots = []
+            def grab(x):
+                if len(x) == 4 and x[0] == "mref":
+                    try:
+                        roots.append(ip.load_ref(st, x))
+                    except Exception:
+                        pass
+                return False
+            mentions(lv, grab)
+            st.events.append(("Call", "epserde", dj["name"], callee, frame.crate.span(e["sp"]), dj.get("n"), lv, tuple(roots)))
             return [(st, ("call", dj["name"], lv, None))]
         return wirehooks.WireHooks.call(self, ip, frame, st, e, callee, dj, targs, resolved, rargs, args)
 
@@ -81,6 +91,7 @@ def rule_loader_paths(u, rep, want=("LEAK", "RAW", "FILL", "ARG", "CAP")):
             evs = p.events
             out = outcome_of(u, p)
             backend_written = None
+            backend_value = None
             released = False
             raw_unowned = None
             read_idx = deser_idx = None
@@ -110,6 +121,9 @@ def rule_loader_paths(u, rep, want=("LEAK", "RAW", "FILL", "ARG", "CAP")):
                         if "ARG" in want:
                             a = args[0] if args else None
                             ok = mentions(a, lambda x: is_uninit_field(x, bi))
+                            if not ok and backend_value is not None and len(e) > 7:
+                                # a raw view of the heap buffer / mapping of the very value that was moved into the backend field
+                                ok = any(isinstance(rv, tuple) and len(rv) > 1 and rv[0] in ("call", "vec", "tryok") and mentions(backend_value, lambda x, rv=rv: x == rv) for rv in e[7])
                             rep.oblige(ok)
                             if not ok:
                                 rep.add("ARG", name, "%s: the bytes handed to deserialize_eps are not taken from the backend at its final place inside the MemCase being built (%s)" % (name, label(a)[:120]), b.loc())
@@ -127,6 +141,7 @@ def rule_loader_paths(u, rep, want=("LEAK", "RAW", "FILL", "ARG", "CAP")):
                         read_base, file_len = None, ln
                 if e[0] == "Store" and is_uninit_field(e[1], bi):
                     backend_written = i
+                    backend_value = e[-1]
                 if e[0] == "AssumeInitUninit" or (e[0] == "Call" and e[2] == "assume_init"):
                     released = True
                 if e[0] in ("TryErr", "R", "W") and raw_unowned is not None and "RAW" in want:
